@@ -62,11 +62,12 @@ func slotValue(t ftype, n int, jsonSpelling bool, noBase64 bool) (v *tbin.Val, t
 		s := fmt.Sprintf("str%d", n)
 		return tbin.Str(s), s, fmt.Sprintf("%q", s)
 	case "i32":
+		// the http text of the odd slots carries a leading zero (a decimal number all the same: zip codes, padded ids)
 		x := int32(100 + n)
-		return tbin.I32v(x), fmt.Sprint(x), fmt.Sprint(x)
+		return tbin.I32v(x), lead0(n) + fmt.Sprint(x), fmt.Sprint(x)
 	case "i64":
 		x := int64(9000000000) + int64(n)
-		return tbin.I64v(x), fmt.Sprint(x), fmt.Sprint(x)
+		return tbin.I64v(x), lead0(n) + fmt.Sprint(x), fmt.Sprint(x)
 	case "double":
 		x := float64(n) + 0.5
 		return tbin.Double(x), fmt.Sprint(x), fmt.Sprint(x)
@@ -87,7 +88,7 @@ func slotValue(t ftype, n int, jsonSpelling bool, noBase64 bool) (v *tbin.Val, t
 		if jsonSpelling {
 			return v, js, js
 		}
-		return v, fmt.Sprintf("%d,%d", a, b), js
+		return v, fmt.Sprintf("%s%d,%s%d", lead0(n), a, lead0(n+1), b), js
 	case "list_string":
 		a, b := fmt.Sprintf("a%d", n), fmt.Sprintf("b%d", n)
 		v := tbin.List(tbin.STRING, tbin.Str(a), tbin.Str(b))
@@ -119,6 +120,13 @@ func slotValue(t ftype, n int, jsonSpelling bool, noBase64 bool) (v *tbin.Val, t
 		return v, js, js
 	}
 	panic("bad type")
+}
+
+func lead0(n int) string {
+	if n%2 == 1 {
+		return "0"
+	}
+	return ""
 }
 
 // zero value of a type (what Write*Field fills in)
